@@ -255,9 +255,12 @@ static bool delete_entity(size_t k) {
     case KFeature: {
         // deleteFeature answers true even when nothing was removed (H5Group::removeGroup ignores the result of
         // H5Gunlink, e.g. on a read-only file): believe the container, not the return value
+        // (counted, not looked up: hasFeature(id) of an absent id walks the data arrays of all features and
+        // dereferences a null pointer when one of them was deleted - DESIGN section 9 item 14, not a C12 matter)
+        nix::ndsize_t before = p->kind == KTag ? p->tag.featureCount() : p->mtag.featureCount();
         bool r = p->kind == KTag ? p->tag.deleteFeature(e.last) : p->mtag.deleteFeature(e.last);
-        bool still = p->kind == KTag ? p->tag.hasFeature(e.last) : p->mtag.hasFeature(e.last);
-        return r && !still;
+        nix::ndsize_t after = p->kind == KTag ? p->tag.featureCount() : p->mtag.featureCount();
+        return r && after + 1 == before;
     }
     default: return false;
     }
